@@ -79,8 +79,9 @@ claim("C07", "other", "abstract interpretation of package queue: intervals with 
       "every return re-establishes 0 <= n <= L and 0 <= head <= max(L-1, 0) (inductive step of the ring invariant; constructors start from 0), every % len(vs) is reached only with L >= 1; "
       "and on every path that neither grows nor rotates the buffer the slot touched is the one the deque semantics prescribes, as a residue class mod L relative to the entry state: "
       "Add writes head+n, Push writes head-1 and leaves head = head-1, Pop reads head and leaves head+1 (free when empty), PopLast reads head+n-1, Front reads head, Peek(i) reads head+i (head+n+i for i<0), "
-      "Each/Slice walk from head in steps of one, and n changes by exactly +1/-1/0. The buffer is only extended with head == 0 (branch fact or Rotate(vs, -head) followed by head = 0), and Each is stoppable. "
-      "Does NOT decide the growth paths beyond bounds and the head == 0 precondition (that append keeps the first n cells, slice.Rotate's own correctness), the number of elements Each/Slice visit, "
+      "Each/Slice walk from head in steps of one, and n changes by exactly +1/-1/0. The buffer is only extended by append when it is exactly full (n == len) and starts at cell 0 (branch fact or "
+      "Rotate(vs, -head) followed by head = 0), so the appended cell is logical position n, and the slot classes continue in the grown buffer with head = 0 (Push's slot after growth); Each is stoppable. "
+      "Does NOT decide slice.Rotate's own correctness (that rotating by -head brings the elements to cells 0..n-1 in order), the number of elements Each/Slice visit, "
       "the content of bulk copies, nor — as a whole — that the contents equal the reference deque over arbitrary histories.",
       BASE_NOTE + " The struct invariant 0<=head<len, 0<=n<=len is assumed at method entry and re-established at every return (inductive). The per-method slot specification is written from the documented deque semantics of the exported API (method names are the anchors).",
       "DESIGN.md section 3, C07")
